@@ -308,7 +308,35 @@ def r5(ctx):
         ok = bool(sites) and all(site_guarded(x, bi) for x, bi in sites)
         ctx.check(ok, "C07.R5", cb.path, "store-reached-only-with-secret-key",
                   "insert_entry (%d site(s), in %s) is dominated by the Ok edge of a call that succeeds only with the secret key: a read-only replica returns before any store call" % (len(sites), sorted({x.path for x, _ in sites})), cb.sp)
-    ctx.floor("C07.R5", 4)
+    # a read-only replica still takes part in everything that does not author entries: the write secret is demanded
+    # only on behalf of the two authoring functions (and the explicit export); the open check does not look at the capability
+    roots = {"sync::Replica::<'a, I>::insert", "sync::Replica::<'a, I>::delete_prefix", "sync::Replica::<'a, I>::secret_key"}
+    nsk = 0
+    for body in f.bodies.values():
+        if body.rec.get("derived"):
+            continue
+        for bi2, t2 in body.calls():
+            if t2["f"].get("name") == "secret_key" and callee_matches(t2, r"sync::(Capability|Replica::<.*>)::secret_key$"):
+                nsk += 1
+                export = body.path.startswith("actor::Actor::on_replica_action")   # the ExportSecretKey action
+                ctx.check(f.only_reached_from(body.path, roots) or export, "C07.R5", body.path, "secret-demanded-only-for-authoring",
+                          "secret_key() is called here; allowed: Replica::insert / delete_prefix (and helpers only they call), Replica::secret_key, the actor's secret export", t2["sp"])
+    if nsk < 3:
+        raise mir.AnchorMissing("expected >=3 calls of secret_key, found %d" % nsk)
+    eo = f.body("sync::ReplicaInfo::ensure_open")
+    ctx.touch(*f.scope(eo.path, prefix="sync::"))
+    rows = {}
+    for closed in (0, 1):
+        for cap in ("Read", "Write"):
+            heap = {"self": E.struct(f, "sync::ReplicaInfo", capability=E.variant(f, CAP, cap, E.Tok("payload")), subscribers=E.Tok("subs"), content_status_cb=E.NONE, closed=E.Int(closed))}
+            try:
+                ret, h, ev = E.run(f, eo.path, [E.href("self")], heap)
+                rows[(closed, cap)] = E.describe(ret, f).split("(")[0]
+            except E.Unsupported as e:
+                rows[(closed, cap)] = "UNSUPPORTED-FORM: %s" % e
+    want = {(0, "Read"): "Ok", (0, "Write"): "Ok", (1, "Read"): "Err", (1, "Write"): "Err"}
+    ctx.check(rows == want, "C07.R5", eo.path, "open-check-ignores-the-capability", "(closed, capability) -> %s; spec: Ok iff not closed - remote entries and reconciliation must work on a read-only replica" % rows, eo.sp)
+    ctx.floor("C07.R5", 8)
 
 
 def run(ctx):
